@@ -343,6 +343,44 @@ def behavioural_title(st, title, autotitle=None):
         st.violation("title:module-broken:%s" % type(exc).__name__, "title %r (class name %r): generated module fails: %r" % (title, name, exc), {**case, "class_name": name})
 
 
+def behavioural_untitled(st, name, position):
+    """An untitled object under a member called `name` (the labeller derives the automatic title from that name):
+    the document is supported whatever the name is, and the class gets a usable name."""
+    inner = {"type": "object", "properties": {"x": {"type": "integer"}}, "required": ["x"]}
+    if position == "properties":
+        doc = {"type": "object", "title": "Root", "properties": {name: inner, "other": {"type": "object", "properties": {"y": {}}}}}
+    else:
+        doc = {"type": "object", "title": "Root", "patternProperties": {name: inner}, "properties": {"other": {"type": "object", "properties": {"y": {}}}}}
+    case = {"member": name, "position": position}
+    st.add("evaluations")
+    st.add("traces")
+    try:
+        elements = parse(docs.load(doc))
+    except Exception as exc:
+        st.violation("untitled:parse-raised:%s" % type(exc).__name__, "untitled object under %s[%r]: %r" % (position, name, exc), case)
+        return
+    from statham.serializers.orderer import get_object_classes
+
+    classes = []
+    for c in get_object_classes(*elements):
+        if not any(c is k for k in classes):
+            classes.append(c)
+    names = [c.__name__ for c in classes]
+    if len(classes) != 3 or len(set(names)) != 3:
+        st.violation("untitled:class-count", "untitled object under %s[%r]: classes %s" % (position, name, names), case)
+    for n in names:
+        for key in judge_title(n):
+            st.violation("%s:untitled" % key, "untitled object under %s[%r] gets class name %r" % (position, name, n), {**case, "class_name": n})
+    try:
+        text = serialize_python(*elements)
+        ns = {}
+        exec(compile(text, "<generated>", "exec"), ns)
+        if not (ns.get("Root") == elements[0]):
+            st.violation("untitled:generated-class-wrong", "untitled object under %s[%r]: generated Root differs" % (position, name), {**case, "module": text[:500]})
+    except Exception as exc:
+        st.violation("untitled:module-broken:%s" % type(exc).__name__, "untitled object under %s[%r]: %r" % (position, name, exc), case)
+
+
 def _ascii_alnum(s):
     return any(c.isascii() and c.isalnum() for c in s)
 
@@ -480,6 +518,22 @@ def work(item):
             st.add("states")
             st.add("transitions")
             behavioural_same_title(st, label, doc, k)
+        # untitled objects under every kind of member name (the labeller's automatic title is that name)
+        members = [x for x in small_strings() if len(x) <= 2][:170] + category_representatives() + [".*", "^.*$", "^[a-z]+$", "^x-", "\\d+", "^\\$", "[$@]", "^_", "$", "$ref-ish", "é", "日本", "#", "/", "a/b", "~0", "%25"]
+        for n, m in enumerate(members):
+            if n % item[2] != item[1] or m in ("", "#"):
+                continue  # the empty member name is not addressable by the reference resolver (json_ref_dict), see DESIGN 6
+            for position in ("properties", "patternProperties"):
+                if position == "patternProperties":
+                    try:
+                        import re as _re
+
+                        _re.compile(m)
+                    except Exception:
+                        continue
+                st.add("states")
+                st.add("transitions")
+                behavioural_untitled(st, m, position)
         # the automatic title is a fallback for titles without ASCII alphanumerics: it needs the same care
         fallback = [(t, a) for t in ("", _NO_TITLE) for a in ("auto", "Object", "a b", 5, True, 1.5, ["x"], {"a": 1}, "", "$", "é")]
         fallback += [(t, a) for t in ("é", "&", "日本", " ") for a in sorted(MODULE_NAMES) + [x.lower() for x in sorted(MODULE_NAMES)] + ["1st", "123", "a", "x y", "class", "def"]]
